@@ -18,6 +18,12 @@ a non-identity Direction, image meshes with explicit bases, `.points` / `.equals
 BEFORE the disturbances, and once more after the random pairs.  The demanded verdict of each directed pair is the
 unambiguous one of the property (independent oracle `history_p5d.oracle_lm`, default basis = identity; cross-checked
 with the Lean spec) and does not depend on the position.
+Phase 6, package G (fcv/c16_batches_p6g.py; notes/PHASE6_G2_C16.md): directed batches for dimensions of the quantifier that
+were sampled at one point only — the full matrix of representation pairs (incl. permuted views over structured meshes and
+two-column point arrays) x equal / unequal variants x evaluation protocols (order of the two calls, arrays handed out before,
+repeated calls), cell-type sets (retyped blocks, both members of an interchangeable pair in one mesh, ragged polygon blocks),
+storage types / memory layouts of the arrays, large lattices (> 1000 / > 65536 points, difference at the first / middle /
+1024th / last point or cell), non-finite coordinates (S1 / S2 only).
 Known classes: F7 (ImageMesh.equals compares spacing/basis with the coordinate-scaled absolute tolerance),
 F14 (short-cuts and PermutedMesh.equals use the receiver's tolerances only: asymmetric when they differ).
 """
@@ -1072,7 +1078,14 @@ def run(ctx):
                 "pairs relying on the default basis (API without basis=, .vti without Direction) against identity / "
                 "rotated / explicit / rectilinear / structured partners, evaluated at fixed positions (pristine process, "
                 "after each disturbing read of an oriented .vti or explicit-basis operation, objects built before, after "
-                "the random pairs); a (position, pair) counts as one distinct case.")
+                "the random pairs); a (position, pair) counts as one distinct case. Plus (phase 6 G) directed batches: per grid all "
+                "81 ordered pairs of 9 representations (explicit in grid / sorted order, view over explicit, image, rectilinear, "
+                "structured, views over the three structured classes; two-column variants for grids in the plane z = 0) with the "
+                "second member equal / shifted in a meshed or flat direction / one cell rewired / a block retyped / a point "
+                "inserted first, middle, last, under 7 evaluation protocols; cell-type-set pairs (retyped block, interchangeable "
+                "pair split inside one mesh, ragged polygons); explicit pairs over coordinate dtypes x connectivity dtypes x "
+                "memory layouts; large lattices (> 1000, > 65536 points) differing at one position; non-finite coordinates "
+                "(no exception, symmetric).")
     ctx.assumptions += [
         "numpy float64 arithmetic is IEEE round-to-nearest-even (point generation of ImageMesh modelled for bases with at "
         "most one non-zero entry per row; other bases only through the parameter short-cut and the implementation-side search)",
